@@ -44,6 +44,16 @@ def oracle(case):
         if not np.array_equal(a, b):
             return ({"cls": cname, "clause": "override", "method": "draw_sample", "param": list(expl)[0] if expl else None},
                     "draw_sample with explicit parameters differs from an instance constructed with them")
+    # ---- an explicitly passed value also wins over a value the instance holds as FIXED (f_<name>)
+    if case.get("base") and expl and cname != "LogNormalNormFitDistribution":
+        fixed_inst = Cls(**{("f_" + p if p in expl else p): v for p, v in case["base"].items()})
+        want_inst = Cls(**merged)
+        for m in ("cdf", "pdf", "icdf"):
+            arg = x if m != "icdf" else np.array([0.2, 0.5, 0.8])
+            a, b = np.asarray(getattr(fixed_inst, m)(arg, **expl)), np.asarray(getattr(want_inst, m)(arg))
+            if not np.array_equal(a, b, equal_nan=True):
+                return ({"cls": cname, "clause": "override", "method": m, "param": list(expl)[0], "fixed": True},
+                        "%s with %r fixed: %s(x, %r) differs from an instance constructed with these values" % (cname, sorted(expl), m, expl))
     d = Cls(**th)
     # ---- argument kinds
     c_arr = np.asarray(d.cdf(x))
@@ -68,6 +78,21 @@ def oracle(case):
         i = int(np.argmax(np.abs(c_arr - doc)))
         return ({"cls": cname, "clause": "documented", "method": "cdf"},
                 "cdf(%r) = %r but the documented formula gives %r (theta=%r)" % (xs[i], float(c_arr[i]), float(doc[i]), th))
+    if cname == "VonMisesDistribution":
+        import scipy.stats as sts_
+        mu, kappa = th["mu"], th["kappa"]
+        xv = mu + np.array([-3.0, -1.0, -0.2, 0.0, 0.4, 2.0, 3.0])
+        cv = np.asarray(d.cdf(xv), dtype=float)
+        ref = sts_.vonmises.cdf(xv - mu, kappa)
+        if not np.allclose(cv, ref, rtol=1e-9, atol=1e-12):
+            return ({"cls": cname, "clause": "documented", "method": "cdf"}, "von Mises cdf(x) is not F0(x - mu; kappa): %r vs %r (mu=%r)" % (cv.tolist(), ref.tolist(), mu))
+        if abs(float(d.cdf(mu)) - 0.5) > 1e-12 or abs(float(d.icdf(0.5)) - mu) > 1e-9 * max(1, abs(mu)):
+            return ({"cls": cname, "clause": "roundtrip", "method": "icdf"}, "von Mises: cdf(mu) = %r, icdf(0.5) = %r for mu = %r" % (float(d.cdf(mu)), float(d.icdf(0.5)), mu))
+        ok_ = (cv > 1e-6) & (cv < 1 - 1e-6)      # away from numerical saturation of the tails
+        back = np.asarray(d.icdf(cv[ok_]), dtype=float)
+        xv = xv[ok_]
+        if not np.allclose(back, xv, rtol=1e-5, atol=1e-5):
+            return ({"cls": cname, "clause": "roundtrip", "method": "icdf"}, "von Mises icdf(cdf(x)) != x on (mu-pi, mu+pi): %r -> %r" % (xv.tolist(), back.tolist()))
     # ---- monotone, range
     xs_sorted = np.sort(x)
     cs = np.asarray(d.cdf(xs_sorted))
